@@ -76,13 +76,21 @@ def snap_stats(h) -> dict:
         return None if np.isinf(x) else nrs(x)
     return {"valid": True, "sum": nrs(st.sum), "sum2": nrs(st.sum2), "min": inf_none(st.min),
             "max": inf_none(st.max), "weight": nrs(st.weight), "median": nrs(st.median),
-            "mean": nrs(_mean(st)), "variance": nrs(st.variance())}
+            "mean": nrs(_mean(st)), "variance": nrs(st.variance()), "_std": nrs(_std(st))}
 
 
 def _mean(st):
     try:
         with np.errstate(all="ignore"):
             return st.mean()
+    except ZeroDivisionError:
+        return float("nan")
+
+
+def _std(st):
+    try:
+        with np.errstate(all="ignore"):
+            return st.std()
     except ZeroDivisionError:
         return float("nan")
 
